@@ -23,6 +23,7 @@ use std::collections::{BTreeMap, VecDeque};
 
 const YEAR: u128 = 60 * 60 * 24 * 365;
 const DENOM: &str = "TOKEN";
+const NS: u64 = 1_000_000_000;
 /// stakes are tracked in units of 10^-15 token (<= 5 slashes per validator with <= 3 decimals each)
 const XS: u128 = 1_000_000_000_000_000;
 /// rates (apr x (1 - commission)) in units of 10^-8
@@ -49,6 +50,10 @@ pub enum Jump {
     /// past the k-th pending maturity
     PastSeveral(u32),
     Zero,
+    /// sub-second moves: block time has nanosecond resolution
+    Nanos(u64),
+    ToMaturityMinusNanos(u32),
+    ToMaturityPlusNanos(u32),
 }
 
 #[derive(Clone, Debug, Serialize, Deserialize, PartialEq)]
@@ -107,7 +112,7 @@ struct Pair {
 
 #[derive(Clone, Debug)]
 struct Pending {
-    payout_at: u64, // seconds
+    payout_at: u64, // nanoseconds
     d: usize,
     v: usize,
     amount: u128,
@@ -119,8 +124,8 @@ struct SModel {
     queue: VecDeque<Pending>,
     withdraw_to: Vec<usize>,
     slashes: Vec<u32>,
-    now: u64, // seconds
-    /// time up to which the integrals have been accrued
+    now: u64, // nanoseconds of block time
+    /// time up to which the integrals have been accrued (the reward clock counts whole seconds of block time)
     accrued_to: u64,
 }
 
@@ -215,11 +220,11 @@ impl Run {
 
     /// accrue the ideal integrals up to the model's current time
     fn accrue(&mut self) {
-        let dt = (self.m.now - self.m.accrued_to) as u128;
+        let dt = (self.m.now / NS - self.m.accrued_to / NS) as u128;
+        self.m.accrued_to = self.m.now;
         if dt == 0 {
             return;
         }
-        self.m.accrued_to = self.m.now;
         for ((_, v), p) in self.m.pairs.iter_mut() {
             let rate = self.rates[*v];
             p.i_hi += u256(p.x_hi) * u256(rate) * u256(dt);
@@ -355,7 +360,7 @@ impl Run {
                     p.i_hi = Uint256::zero();
                     p.w_hi = 0;
                 }
-                self.m.queue.push_back(Pending { payout_at: now + unb, d, v: *v as usize, amount: a });
+                self.m.queue.push_back(Pending { payout_at: now + unb * NS, d, v: *v as usize, amount: a });
             }
             StakeMsg::Redelegate { src, dst, .. } => {
                 let p = self.pair(d, *src as usize);
@@ -774,12 +779,15 @@ impl Run {
         let now = self.m.now;
         let maturities: Vec<u64> = self.m.queue.iter().map(|q| q.payout_at).filter(|t| *t > now).collect();
         let target = match jump {
-            Jump::Secs(s) => now + s,
+            Jump::Secs(s) => now + s * NS,
+            Jump::Nanos(n) => now + n,
             Jump::Zero => now,
-            Jump::ToMaturity => maturities.first().copied().unwrap_or(now + 1),
-            Jump::ToMaturityMinus1 => maturities.first().map(|t| (*t - 1).max(now)).unwrap_or(now),
-            Jump::ToMaturityPlus1 => maturities.first().map(|t| *t + 1).unwrap_or(now + 1),
-            Jump::PastSeveral(k) => maturities.get(*k as usize).or(maturities.last()).map(|t| *t + 5).unwrap_or(now + 7),
+            Jump::ToMaturity => maturities.first().copied().unwrap_or(now + NS),
+            Jump::ToMaturityMinus1 => maturities.first().map(|t| (*t - NS).max(now)).unwrap_or(now),
+            Jump::ToMaturityPlus1 => maturities.first().map(|t| *t + NS).unwrap_or(now + NS),
+            Jump::ToMaturityMinusNanos(n) => maturities.first().map(|t| t.saturating_sub(*n as u64).max(now)).unwrap_or(now),
+            Jump::ToMaturityPlusNanos(n) => maturities.first().map(|t| *t + *n as u64).unwrap_or(now + *n as u64),
+            Jump::PastSeveral(k) => maturities.get(*k as usize).or(maturities.last()).map(|t| *t + 5 * NS).unwrap_or(now + 7 * NS),
         };
         let slices = slices.clamp(1, 4) as u64;
         let total = target - now;
@@ -795,7 +803,7 @@ impl Run {
     fn advance_to(&mut self, t: u64, set: bool, jump: &Jump) {
         let cur = self.app.block_info();
         let dt = t - self.m.now;
-        let new = BlockInfo { height: cur.height + 1, time: cur.time.plus_seconds(dt), chain_id: cur.chain_id.clone() };
+        let new = BlockInfo { height: cur.height + 1, time: cur.time.plus_nanos(dt), chain_id: cur.chain_id.clone() };
         let app = &mut self.app;
         let nb = new.clone();
         let real = if set {
@@ -807,13 +815,13 @@ impl Run {
             guarded(|| {
                 app.update_block(|b| {
                     b.height += 1;
-                    b.time = b.time.plus_seconds(dt);
+                    b.time = b.time.plus_nanos(dt);
                 });
                 Ok(())
             })
         };
         self.stats.steps += 1;
-        self.stats.sim_seconds += dt;
+        self.stats.sim_seconds += dt / NS;
         self.stats.fault(match jump {
             Jump::Secs(_) => "clock_jump_span",
             Jump::Zero => "clock_zero_jump",
@@ -821,10 +829,13 @@ impl Run {
             Jump::ToMaturityMinus1 => "clock_jump_to_maturity_minus_1",
             Jump::ToMaturityPlus1 => "clock_jump_to_maturity_plus_1",
             Jump::PastSeveral(_) => "clock_jump_past_several",
+            Jump::Nanos(_) => "clock_jump_sub_second",
+            Jump::ToMaturityMinusNanos(_) => "clock_jump_to_maturity_minus_nanos",
+            Jump::ToMaturityPlusNanos(_) => "clock_jump_to_maturity_plus_nanos",
         });
         match real {
             RealOut::Panic(p) => {
-                self.vall("block_update_panic", format!("block update to t+{} panicked: {}", dt, p));
+                self.vall("block_update_panic", format!("block update to t+{} ns panicked: {}", dt, p));
                 return;
             }
             RealOut::Err(e) => {
@@ -845,7 +856,7 @@ impl Run {
                 break;
             }
         }
-        self.check_state(&format!("block update (+{} s)", dt));
+        self.check_state(&format!("block update (+{}.{:09} s)", dt / NS, dt % NS));
     }
 
     pub fn step(&mut self, op: &SOp) {
@@ -910,6 +921,7 @@ pub fn build(case: &Case) -> Run {
         .with_api(api)
         .with_storage(SimStorage::new())
         .with_bank(RecBank { inner: BankKeeper::new(), world: world.clone() })
+        .with_wasm(RecWasm { inner: cw_multi_test::WasmKeeper::new(), world: world.clone() })
         .with_custom(RecCustom { world: world.clone(), inner: CustomInner::Stub })
         .with_staking(RecStaking { inner: StakeKeeper::new(), world: world.clone() })
         .with_distribution(RecDistr { inner: DistributionKeeper::new(), world: world.clone() })
@@ -954,7 +966,7 @@ pub fn build(case: &Case) -> Run {
     let _ = world.take_trace();
     let _ = world.take_module_calls();
     let rates: Vec<u128> = commissions.iter().map(|c| apr as u128 * (10_000 - *c as u128)).collect();
-    let now = mock_env().block.time.seconds();
+    let now = mock_env().block.time.nanos();
     Run {
         app,
         addrs,
@@ -1001,6 +1013,9 @@ pub fn execute_case(case: &Case) -> RunResult {
                 Jump::ToMaturityMinus1 => "m-",
                 Jump::ToMaturityPlus1 => "m+",
                 Jump::PastSeveral(_) => "M",
+                Jump::Nanos(_) => "n",
+                Jump::ToMaturityMinusNanos(_) => "mn-",
+                Jump::ToMaturityPlusNanos(_) => "mn+",
             },
         };
         sig.write_str(tag);
@@ -1099,12 +1114,15 @@ impl Engine for StakeSim {
                     SOp::Slash { v: if rng.chance(1, 30) { nv } else { rng.below(nv as u64) as u32 }, p_milli: p }
                 }
                 _ => {
-                    let jump = match rng.below(10) {
+                    let jump = match rng.below(13) {
                         0 => Jump::Zero,
                         1 | 2 => Jump::ToMaturity,
                         3 => Jump::ToMaturityMinus1,
                         4 => Jump::ToMaturityPlus1,
                         5 => Jump::PastSeveral(rng.below(3) as u32),
+                        10 => Jump::Nanos(rng.range(1, 1_999_999_999)),
+                        11 => Jump::ToMaturityMinusNanos(rng.range(1, 999_999_999) as u32),
+                        12 => Jump::ToMaturityPlusNanos(rng.range(1, 999_999_999) as u32),
                         _ => {
                             let s = match rng.below(5) {
                                 0 => rng.range(1, 120),
